@@ -24,4 +24,14 @@ for key, lst in sorted(eng.cs.contracts.items()):
                     if o["result"] != "discharged" and o.get("model"):
                         print("        model:", json.dumps(o["model"], default=str)[:1500])
                 print("   assumptions:", r.get("assumptions"))
+for name, c in sorted(eng.cs.lemma_classes.items()):
+    if pat in ("lemma:" + name) or pat == name:
+        prop = sys.argv[2] if len(sys.argv) > 2 else (c.props[0] if c.props else "C00")
+        r = cli.worker((prop, "lemma:" + name, name, None, "quick", []))
+        n += 1
+        print(f"== lemma:{name} status={r['status']} canary={r.get('canary')} time={r.get('time')} reason={str(r.get('reason'))[-1500:]}")
+        for o in r["obligations"]:
+            flag = "ok  " if o["result"] == "discharged" else "FAIL"
+            print(f"   {flag} {o['id']} [{o['solver']}] {o['time']}s {'' if o['result']=='discharged' else str(o.get('reason'))[:300]}")
+        print("   assumptions:", r.get("assumptions"))
 print("contracts run:", n)
